@@ -1001,3 +1001,27 @@ Proof.
   destruct (parse_float s) as [g|] eqn:E; [|discriminate]. intros H. apply fl_same_eq in H. subst g.
   exists s. split; [reflexivity | exact E].
 Qed.
+
+(* C01 (implicit print): the first item of a printed expression, under any style, is one of
+   the item types with which beginTag starts an implicit print command (values, unary
+   operators, "[" and "("); the command-level parser ties [expr_start_types] to the case list
+   of parse.go's beginTag. *)
+Definition expr_start_types : list N :=
+  [pk_itemIdent; pk_itemDollarIdent; pk_itemNull; pk_itemBool; pk_itemFloat; pk_itemInteger; pk_itemString;
+   pk_itemNegate; pk_itemNot; pk_itemLeftBracket; pk_itemLeftParen].
+
+Theorem show_starts_expression sty e : wf_expr e -> forall path kk,
+  exists x l, parens kk (show sty path e) = x :: l /\ mem (t_typ x) expr_start_types = true.
+Proof.
+  assert (HP : forall ts k, (exists x l, ts = x :: l /\ mem (t_typ x) expr_start_types = true) ->
+                            exists x l, parens k ts = x :: l /\ mem (t_typ x) expr_start_types = true).
+  { intros ts [|k] H; [exact H|]. rewrite parens_S. do 2 eexists. split; reflexivity. }
+  induction e; intros Hwf path kk; cbn [wf_expr] in Hwf; try contradiction; apply HP; cbn [show];
+    try (do 2 eexists; split; reflexivity).
+  - unfold global_toks. destruct (split_dots_shape name []) as (f & r & E). rewrite E. do 2 eexists; split; reflexivity.
+  - destruct items; do 2 eexists; split; reflexivity.
+  - destruct Hwf as [H1 _]. destruct (IHe1 H1 (0%nat :: path) (kL sty path op e1)) as (x & l & E & Hx).
+    unfold kL in E. rewrite E. do 2 eexists; split; [reflexivity | exact Hx].
+  - destruct Hwf as (_ & H1 & _). destruct (IHe1 H1 (0%nat :: path) (kC sty path e1)) as (x & l & E & Hx).
+    unfold kC in E. rewrite E. do 2 eexists; split; [reflexivity | exact Hx].
+Qed.
